@@ -1,8 +1,9 @@
 CONFIG = {
     "id": "C04",
-    "coq_targets": ["Props/C04.v", "Model/HitCheck.v", "Model/HitTerms.v"],
+    "coq_targets": ["Gen/FormulasInfo.v", "Gen/FormulasAttr.v", "Gen/Formulas.v", "Proofs/FormulasInfoProofs.v", "Proofs/FormulasAttrCoreProofs.v", "Proofs/FormulasProofs.v",
+                    "Props/C04.v", "Model/HitCheck.v", "Model/HitTerms.v"],
     "prop_files": ["Props/C04.v"],
-    "gen": [],
+    "gen": ["FormulasInfo", "FormulasAttr", "Formulas"],
     "components": [{
         "name": "hit",
         # HitTerms last: it gives the case files the constructors at the binary64 instance
@@ -25,6 +26,36 @@ CONFIG = {
             "their two binary64 neighbours, zero, negatives); all randomness from one splitmix64 state; a case is non-trivial when "
             "distinct as an input term",
     "trusted": [
+        "TRANSLATED from the Go source on every run and proved equal to the model for every NumOps instance and "
+        "every argument (Gen/FormulasInfo.v, Gen/FormulasAttr.v, Gen/Formulas.v; Proofs/Formulas*Proofs.v; "
+        "theorems C04_model_formulas_are_the_source, C04_perform_hit_is_the_source): damage.go baseDamage (per-key "
+        "switch; the summation loop is checked to have the shape for k in slices.Sorted(maps.Keys(m)) { v := m[k]; "
+        "switch k {case K: acc += v * e} } and mapped to the model's fold over sorted keys), bonusDamage, defMult, "
+        "res, vul, toughness, damageReduce, crit (eligibility and draw < CritChance), critDmg; hit.go performHit: "
+        "base, fatigue, the eight factors and their left-to-right product, the HP / stance / energy amounts and "
+        "the IsWeakTo guard, newHit's hit-ratio default; stats.go statCalc, GetProperty, ID, Level, "
+        "CurrentHPRatio, Stance, MaxHP, HP, ATK, DEF, CurrentHP, CritChance, CritDamage, HealBoost, EnergyRegen, "
+        "BreakEffect, DamagePercent, DamageRES; map.go PropMap.Modify; prop.go "
+        "DamagePercent/DamageRES/DamagePEN/DamageTaken with their four tables; model.AttackType.IsQualified; "
+        "attribute AddTarget (energy cap, HP ratio default), ModifyHPByAmount (new HP, ratio, clamp), SetStance "
+        "clamp, ModifyStance amount (reads the SOURCE's stats), SetEnergy clamp, ModifyEnergy amount (reads the "
+        "TARGET's stats); shield AbsorbDamage's loop body and initial values; tables/constants: BreakBaseDamage "
+        "(every row bit for bit), every prop.Property code, DamageType / AttackType / DamageFormula / TargetState "
+        "values",
+        "still HAND-WRITTEN (correspondence only): Attack / EndAttack, the order of effects in performHit and the "
+        "routing of the energy to attacker or defender, emitHPChangeEvents (death is final, limbo), the removal of "
+        "exhausted shields, the event records",
+        "translator (harness/cmd/go2coq formulas.go, formulas_specs.go): trusted are the Go front end "
+        "(go/packages, go/types, go/constant), the fixed whitelist and accessor tables (which Go field / method is "
+        "which model accessor), the statement translation listed at the top of formulas.go, and that lit N n d "
+        "(the correctly rounded quotient of two integers below 2^53) is the binary64 the Go compiler stores for "
+        "the literal n/d; the translator fails closed (unknown construct, added or missing assignment, changed "
+        "signature: go2coq exits 1 and the check reports a broken translator obligation)",
+        "for functions that mix effects and arithmetic only the whitelisted statements are translated (the "
+        "statements of one block that assign the named variables, their number fixed; every other assignment to "
+        "those variables or to the inputs must be whitelisted verbatim): the ORDER of effects around the "
+        "arithmetic (event emissions, service calls, which unit receives the energy) stays hand-written and is "
+        "tied by correspondence only",
         "the Go map of formula terms is traversed in the model in ascending key order: the generator keeps at most two float "
         "addends after the initial 0 (order independent in binary64), or, in the 'dyadic' third of the cases, up to four terms "
         "whose partial sums are all exact; over the reals the sum is proved order independent (baseDamage_perm)",
@@ -42,13 +73,16 @@ CONFIG = {
         "map and the flat damage (they do not start further attacks from inside the listener)",
     ],
     "manifest": {
-        "level_text": "Kernel-checked theorems over an executable Gallina model of damage.go, performHit/newHit, Attack/EndAttack, "
+        "level_text": "Translator tie (way 1): the leaf formulas, clamps, comparisons, parties and tables of damage.go / hit.go / stats.go / map.go / prop.go / break.gen.go and the attribute and shield arithmetic a hit uses are regenerated from the Go source on every run (go2coq Formulas*) and proved EQUAL to the model definitions for all inputs; "
+                      "Kernel-checked theorems over an executable Gallina model of damage.go, performHit/newHit, Attack/EndAttack, "
                       "the attribute service's HP/stance/energy updates and shield absorption (party and crit clauses at every "
                       "arithmetic instance, clamps at the binary64 level, factor formulas / products / splits at the real "
                       "instance), tied to the Go code by exact bit-for-bit trace correspondence and an independent monitor.",
-        "level_note": "Coq kernel; hand-written model Model/CombatCore.v + Model/Hit.v; correspondence harness against the real "
+        "level_note": "go2coq Formulas* translator + kernel-checked equalities generated = model; "
+                      "Coq kernel; hand-written model Model/CombatCore.v + Model/Hit.v; correspondence harness against the real "
                       "combat manager, attribute service, shield manager and event system; reals vs binary64 gap named in trusted.",
-        "technique": "Coq proof (case analysis, lra over the reals, induction over shields and formula terms) + "
+        "technique": "source-to-Coq translation of the formulas with equality proofs + "
+                     "Coq proof (case analysis, lra over the reals, induction over shields and formula terms) + "
                      "model/implementation correspondence + trace monitor",
         "design_ref": "DESIGN.md section 7, C04",
     },
